@@ -1178,3 +1178,233 @@ def simplify(tree: ast.Module) -> List[str]:
             if len(log) > before:
                 ast.fix_missing_locations(fd)
     return sorted(set(log))
+
+
+# ---- dispatch tables of (predicate, handler) pairs ------------------------------------------------------------------------------------
+
+class _Subst(ast.NodeTransformer):
+    """loads of the given names replaced by (copies of) expressions; nested scopes that rebind a name are left alone"""
+
+    def __init__(self, mapping: Dict[str, ast.AST]):
+        self.mapping = mapping
+
+    def visit_Name(self, node: ast.Name) -> ast.AST:
+        if isinstance(node.ctx, ast.Load) and node.id in self.mapping:
+            return ast.copy_location(copy.deepcopy(self.mapping[node.id]), node)
+        return node
+
+    def visit_Lambda(self, node: ast.Lambda) -> ast.AST:
+        bound = {a.arg for a in node.args.posonlyargs + node.args.args + node.args.kwonlyargs} | ({node.args.vararg.arg} if node.args.vararg else set()) | ({node.args.kwarg.arg} if node.args.kwarg else set())
+        inner = {k: v for k, v in self.mapping.items() if k not in bound}
+        if inner:
+            node.body = _Subst(inner).visit(node.body)
+        return node
+
+    def visit_FunctionDef(self, node):  # type: ignore
+        return node
+
+    def visit_ClassDef(self, node):  # type: ignore
+        return node
+
+
+def _simple_arg(e: ast.AST) -> bool:
+    """an argument that can be written twice: a name, a constant, an attribute chain of a name, a display of such"""
+    if isinstance(e, (ast.Name, ast.Constant)):
+        return True
+    if isinstance(e, ast.Attribute):
+        return _simple_arg(e.value)
+    if isinstance(e, (ast.Tuple, ast.List)):
+        return all(_simple_arg(x) for x in e.elts)
+    return False
+
+
+def _apply_lambda(lam: ast.Lambda, args: List[ast.AST]) -> Optional[ast.AST]:
+    a = lam.args
+    if a.kwonlyargs or a.kwarg or a.defaults or a.posonlyargs or any(isinstance(x, ast.Starred) for x in args) or not all(_simple_arg(x) for x in args):
+        return None
+    names = [x.arg for x in a.args]
+    if a.vararg is None and len(names) != len(args):
+        return None
+    if a.vararg is not None and len(args) < len(names):
+        return None
+    mapping: Dict[str, ast.AST] = dict(zip(names, args))
+    if a.vararg is not None:
+        mapping[a.vararg.arg] = ast.Tuple(elts=list(args[len(names):]), ctx=ast.Load())
+    return _Subst(mapping).visit(copy.deepcopy(lam.body))
+
+
+class _Beta(ast.NodeTransformer):
+    """`(lambda x: E)(a)` is E[x := a]; `factory(a..)(b..)` where `def factory(p..): return lambda q..: E` is E[p.. := a.., q.. := b..]"""
+
+    def __init__(self, factories: Dict[str, FuncDef], predicates: bool = False):
+        self.factories = factories
+        self.predicates = predicates
+        self.truth_positions: Set[int] = set()  # calls whose value is only tested for truth (the test itself, operands of and / or / not in it)
+        self.count = 0
+
+    def mark_truth(self, e: ast.AST) -> None:
+        if isinstance(e, ast.BoolOp):
+            for v in e.values:
+                self.mark_truth(v)
+        elif isinstance(e, ast.UnaryOp) and isinstance(e.op, ast.Not):
+            self.mark_truth(e.operand)
+        elif isinstance(e, ast.Call):
+            self.truth_positions.add(id(e))
+
+    def visit_Call(self, node: ast.Call) -> ast.AST:
+        self.generic_visit(node)
+        if node.keywords:
+            return node
+        f = node.func
+        lam: Optional[ast.AST] = None
+        if isinstance(f, ast.Lambda):
+            lam = f
+        elif isinstance(f, ast.Call) and isinstance(f.func, ast.Name) and f.func.id in self.factories and not f.keywords:
+            fd = self.factories[f.func.id]
+            body = [s for s in fd.body if not (isinstance(s, ast.Expr) and isinstance(s.value, ast.Constant))]
+            if len(body) == 1 and isinstance(body[0], ast.Return) and isinstance(body[0].value, ast.Lambda) and not fd.decorator_list:
+                outer = ast.Lambda(args=fd.args, body=body[0].value)
+                lam = _apply_lambda(outer, list(f.args))
+        if lam is None and self.predicates and isinstance(f, ast.Name) and f.id in self.factories:
+            # a one-line predicate (`def is_x(v): return <test of v>`) applied to a simple argument
+            fd = self.factories[f.id]
+            body = [s for s in fd.body if not (isinstance(s, ast.Expr) and isinstance(s.value, ast.Constant))]
+            if len(body) == 1 and isinstance(body[0], ast.Return) and body[0].value is not None and (_is_boolean(body[0].value) or id(node) in self.truth_positions) and not fd.decorator_list \
+                    and not any(isinstance(x, (ast.Lambda, ast.Yield, ast.Await, ast.NamedExpr)) for x in ast.walk(body[0].value)):
+                lam = ast.Lambda(args=fd.args, body=body[0].value)
+        if isinstance(lam, ast.Lambda):
+            r = _apply_lambda(lam, list(node.args))
+            if r is not None:
+                self.count += 1
+                return ast.copy_location(r, node)
+        return node
+
+
+def unroll_dispatch_tables(tree: ast.Module) -> List[str]:
+    """`for (applies, handle) in RULES: if applies(x): <body>; break` `else: <no rule>` over a literal list RULES of pairs that nothing else uses is the
+    chain `if P1(x): <body with H1> elif P2(x): <body with H2> ... else: <no rule>`; predicates written as lambdas (or made by a one-line lambda factory)
+    are applied in place.  The chain is what the rules are written against."""
+    log: List[str] = []
+    # every binding and every use of a name, over the whole module
+    uses: Dict[str, List[ast.Name]] = {}
+    for n in ast.walk(tree):
+        if isinstance(n, ast.Name):
+            uses.setdefault(n.id, []).append(n)
+    parents: Dict[int, ast.AST] = {}
+    for p in ast.walk(tree):
+        for c in ast.iter_child_nodes(p):
+            parents[id(c)] = p
+
+    def holders(scope: ast.AST):
+        for fld in ("body", "orelse", "finalbody"):
+            b = getattr(scope, fld, None)
+            if isinstance(b, list) and b and isinstance(b[0], ast.stmt):
+                yield b
+        for h in getattr(scope, "handlers", []) or []:
+            yield h.body
+
+    def visit(scope: ast.AST, factories: Dict[str, FuncDef], caller: Optional[FuncDef] = None) -> None:
+        if isinstance(scope, (ast.FunctionDef, ast.Module, ast.ClassDef)):
+            factories = dict(factories)
+            for s in scope.body:
+                if isinstance(s, ast.FunctionDef):
+                    factories[s.name] = s
+        if isinstance(scope, ast.FunctionDef):
+            caller = scope
+        for body in holders(scope):
+            i = 0
+            while i < len(body):
+                st = body[i]
+                new = try_unroll(st, factories, caller) if isinstance(st, ast.For) else None
+                if new is not None:
+                    body[i] = new
+                else:
+                    visit(st, factories, caller)
+                i += 1
+
+    def try_unroll(loop: ast.For, factories: Dict[str, FuncDef], caller: Optional[FuncDef]) -> Optional[ast.stmt]:
+        if not (isinstance(loop.iter, ast.Name) and isinstance(loop.target, (ast.Tuple, ast.List)) and all(isinstance(t, ast.Name) for t in loop.target.elts)):
+            return None
+        T = loop.iter.id
+        us = uses.get(T, [])
+        stores = [u for u in us if isinstance(u.ctx, ast.Store)]
+        loads = [u for u in us if isinstance(u.ctx, ast.Load)]
+        if len(stores) != 1 or any(not (isinstance(parents.get(id(u)), ast.For) and parents[id(u)].iter is u) for u in loads):  # type: ignore
+            return None
+        asg = parents.get(id(stores[0]))
+        if not isinstance(asg, (ast.Assign, ast.AnnAssign)) or not isinstance(asg.value, (ast.List, ast.Tuple)):
+            return None
+        k = len(loop.target.elts)
+        rows = asg.value.elts
+        if not rows or not all(isinstance(r, ast.Tuple) and len(r.elts) == k for r in rows):
+            return None
+        if not (len(loop.body) == 1 and isinstance(loop.body[0], ast.If) and not loop.body[0].orelse and loop.body[0].body and isinstance(loop.body[0].body[-1], ast.Break)):
+            return None
+        inner = loop.body[0]
+        if any(isinstance(x, (ast.Break, ast.Continue)) for s in inner.body[:-1] for x in ast.walk(s)):
+            return None
+        names = [t.id for t in loop.target.elts]  # type: ignore
+        # the loop variables are not read after the loop
+        for nm in names:
+            for u in uses.get(nm, []):
+                if not any(u is x for x in ast.walk(loop)):
+                    return None
+        beta = _Beta(factories)
+        beta_t = _Beta(factories, predicates=True)
+        out: List[ast.stmt] = []
+        for r in rows:
+            sub = _Subst(dict(zip(names, r.elts)))  # type: ignore
+            test = sub.visit(copy.deepcopy(inner.test))
+            beta_t.mark_truth(test)
+            test = beta_t.visit(test)
+            bd = [beta.visit(sub.visit(copy.deepcopy(s))) for s in inner.body[:-1]]
+            # the handler of the row, called at statement level with simple arguments, is expanded where it is called
+            if caller is not None:
+                for bi, bs in enumerate(list(bd)):
+                    c = _stmt_call(bs)
+                    if c is not None and isinstance(c.func, ast.Name) and c.func.id in factories and any(isinstance(x, ast.Name) and x.id == c.func.id for x in ast.walk(r)) \
+                            and all(_simple_arg(a) for a in c.args) and not c.keywords:
+                        fd = factories[c.func.id]
+                        if fd.decorator_list or fd is caller or any(isinstance(x, (ast.Yield, ast.YieldFrom, ast.Await, ast.Nonlocal, ast.Global)) for x in _own_walk(fd)) \
+                                or any(isinstance(x, ast.Name) and x.id == fd.name for x in _own_walk(fd)):
+                            continue
+                        serial[0] += 1
+                        blk_ = _expand(caller, bs, c, fd, serial[0], set(factories) - _assigned(caller))
+                        if blk_ is not None:
+                            bd[bi] = blk_
+                            handlers.add(fd.name)
+            j = InlineJump()
+            ast.copy_location(j, inner.body[-1])
+            arm = ast.If(test=test, body=bd + [j], orelse=[])
+            ast.copy_location(arm, r)
+            out.append(arm)
+        out += loop.orelse
+        marker = ast.Call(func=ast.Name(id="__inline__", ctx=ast.Load()), args=[ast.Constant(value=f"<dispatch {T}>")], keywords=[])
+        blk = InlineBlock(items=[ast.withitem(context_expr=marker, optional_vars=None)], body=out, type_comment=None)
+        blk.helper = f"<dispatch {T}>"
+        ast.copy_location(blk, loop)
+        ast.fix_missing_locations(blk)
+        log.append(f"dispatch table {T}: {len(rows)} rules unrolled into a chain ({beta.count + beta_t.count} predicate(s) applied in place)")
+        unrolled.append((T, asg))
+        return blk
+
+    unrolled: List[Tuple[str, ast.AST]] = []
+    handlers: Set[str] = set()
+    serial = [0]
+    visit(tree, {})
+    # a table whose every loop was unrolled is not needed any more
+    for T, asg in unrolled:
+        left = [n for n in ast.walk(tree) if isinstance(n, ast.Name) and n.id == T and isinstance(n.ctx, ast.Load)]
+        if not left:
+            for p in ast.walk(tree):
+                for body in holders(p):
+                    if any(s is asg for s in body):
+                        body[:] = [s for s in body if s is not asg] or [ast.Pass()]
+    # ... nor is a handler that only the table named
+    for h in sorted(handlers):
+        if not any(isinstance(n, ast.Name) and n.id == h and isinstance(n.ctx, ast.Load) for n in ast.walk(tree)):
+            for p in ast.walk(tree):
+                for body in holders(p):
+                    if any(isinstance(s, ast.FunctionDef) and s.name == h for s in body):
+                        body[:] = [s for s in body if not (isinstance(s, ast.FunctionDef) and s.name == h)] or [ast.Pass()]
+    return log
